@@ -2171,7 +2171,10 @@ class Parameters:
             dep_obj.param.unwatch(watcher)
         self_.self._param__private.ref_watchers = []
         refs = dict(self_.self._param__private.refs, **{name: ref})
-        deps = {name: resolve_ref(ref) for name, ref in refs.items()}
+        deps = {
+            pname: resolve_ref(pref, self_[pname].nested_refs)
+            for pname, pref in refs.items()
+        }
         self_._setup_refs(deps)
         self_.self._param__private.refs = refs
 
